@@ -561,6 +561,9 @@ def gen_timeout_cluster(rng, cid):
         e = rng.randrange(k)
         if r < 0.45:
             hs = [rng.choice(REQ_HDRS[:4])] if rng.random() < 0.5 else []
+            if rng.random() < 0.35:
+                # a client may send the forward marker itself: the timeout still applies at the node that serves it
+                hs.append((rng.choice(["x-piko-forward", "X-Piko-Forward"]), "true"))
             reqs.append(http_req(e, rng.choice(["GET", "POST"]), "/slow", "s.example.com", hs))
         elif r < 0.9:
             conn = [(rng.choice(["Connection", "connection"]), rng.choice(["Upgrade", "upgrade", "keep-alive, Upgrade"]))]
@@ -621,6 +624,14 @@ def reset_cluster(cid):
              {"id": "n1", "upstreams": [up("u1", "e")], "view": []}]
     return {"id": cid, "timeout_ms": NORMAL_TIMEOUT_MS, "kind": "failure", "nodes": nodes,
             "requests": [http_req(0, host="e.example.com") for _ in range(12)]}
+
+
+def marked_timeout_cluster(cid):
+    nodes = [{"id": "n0", "upstreams": [up("us", "s", delay=SLOW_MS)], "view": []}, {"id": "n1", "upstreams": [], "view": []}]
+    truth_views(nodes)
+    return {"id": cid, "timeout_ms": TIMEOUT_MS, "kind": "timeout", "nodes": nodes,
+            "requests": [http_req(0, "GET", "/slow", "s.example.com", [("x-piko-forward", "true")]), http_req(1, "GET", "/slow", "s.example.com"),
+                         http_req(0, "POST", "/slow", "s.example.com", [("X-Piko-Forward", "true")])]}
 
 
 def gen_cluster(rng, cid, profile):
@@ -1326,7 +1337,7 @@ def run_property(ctx, pid, nclusters_quick, nhosts):
     profile = PROFILES[pid]
     clusters = corpus() + [gen_dynamic_cluster(random.Random(7 + k), "corpus-dyn-" + sc, sc) for k, sc in enumerate(["reconnect", "twins", "goaway", "flaky"])] \
         + [gen_tls_cluster(random.Random(77), "corpus-tls"), reset_cluster("corpus-reset")] \
-        + ([agent_burst_cluster("corpus-agent-burst"), empty_404_cluster("corpus-empty-404", False), empty_404_cluster("corpus-empty-404-b", False),
+        + ([marked_timeout_cluster("corpus-timeout-marked"), agent_burst_cluster("corpus-agent-burst"), empty_404_cluster("corpus-empty-404", False), empty_404_cluster("corpus-empty-404-b", False),
             empty_404_cluster("corpus-empty-404-agent", True)] if pid == "C08" else []) \
         + [gen_cluster(rng, "g%d" % i, profile) for i in range(nclusters)]
     hosts = gen_hosts(rng, nhosts if tier == "quick" else nhosts * 10)
